@@ -26,6 +26,8 @@ def run(tier, seed):
     chk.leg("trace validation (Layer A judge)", events=n + n2)
     common.nohooks_leg(chk, "rngfaults", profile="checked", nsweeps=1)
     common.mc_leg(chk, "MC_API", tier=tier)
+    # ErrorCreatesNothing and the RNG discipline without bounds: TLAPS
+    common.tlaps_leg(chk)
     chk.cov["exhaustive"] = True
     chk.cov["exhaustive_note"] = "every (fault kind x entry point x set) of the model; one RNG request per operation (one fault point); the constant-time test entry point makes two and is faulted at both"
     return chk.finish()
